@@ -11,6 +11,7 @@ import (
 	"flag"
 	"fmt"
 	"math"
+	"net/http/httptest"
 	"os"
 	"path"
 	"path/filepath"
@@ -24,6 +25,7 @@ import (
 	"github.com/pingcap/kvproto/pkg/metapb"
 	"github.com/pingcap/log"
 	"github.com/tikv/pd/pkg/encryption"
+	"github.com/tikv/pd/server/api"
 	"github.com/tikv/pd/server/core"
 	"github.com/tikv/pd/server/election"
 	"github.com/tikv/pd/server/encryptionkm"
@@ -1561,6 +1563,54 @@ func encryptedRecordsProbe(R *res.Result, seed uint64) {
 	}
 }
 
+// storeWeightAPI: the saving seen from the API that does it. POST /store/{id}/weight through the real router of the leader;
+// every request that is answered 200 must be what a full load of the stores returns afterwards (LoadStores: the next
+// leader election / restart) and what the serving member shows - also for the legal weight 0 ("take all leaders off").
+func storeWeightAPI(R *res.Result, l *pdcluster.Node) {
+	R.Count("probe:store-weight-api")
+	h, _, err := api.NewHandler(context.Background(), l.S)
+	if err != nil {
+		R.Notes = append(R.Notes, "store-weight-api skipped: "+err.Error())
+		return
+	}
+	type req struct {
+		body           string
+		leader, region float64
+	}
+	reqs := []req{{`{"leader": 2.5, "region": 3}`, 2.5, 3}, {`{"leader": 0, "region": 1.5}`, 0, 1.5}, {`{"leader": 1.25, "region": 0}`, 1.25, 0},
+		{`{"leader": 4, "region": 0.5}`, 4, 0.5}, {`{"leader": 0, "region": 0}`, 0, 0}, {`{"region": 7, "leader": 123456.789}`, 123456.789, 7}}
+	for _, q := range reqs {
+		rw := httptest.NewRecorder()
+		h.ServeHTTP(rw, httptest.NewRequest("POST", "/pd/api/v1/store/1/weight", strings.NewReader(q.body)))
+		if rw.Code != 200 {
+			R.Count(fmt.Sprintf("probe:store-weight-api:answered-%d", rw.Code))
+			continue // a refusal is not a save
+		}
+		var lw, rw2 float64
+		found := false
+		if err := l.S.GetStorage().LoadStores(func(s *core.StoreInfo) {
+			if s.GetID() == 1 {
+				found, lw, rw2 = true, s.GetLeaderWeight(), s.GetRegionWeight()
+			}
+		}); err != nil {
+			R.Notes = append(R.Notes, "store-weight-api: LoadStores: "+err.Error())
+			return
+		}
+		served := l.S.GetRaftCluster().GetStore(1)
+		if !found || lw != q.leader || rw2 != q.region || served == nil || served.GetLeaderWeight() != q.leader || served.GetRegionWeight() != q.region {
+			sl, sr := -1.0, -1.0
+			if served != nil {
+				sl, sr = served.GetLeaderWeight(), served.GetRegionWeight()
+			}
+			R.Violate("C17:load:store-weight-differs",
+				fmt.Sprintf("POST /store/1/weight %s answered 200; a full load of the stores returns store 1 (found: %v) with leader weight %v region weight %v, the serving member shows %v / %v; saved was %v / %v",
+					q.body, found, lw, rw2, sl, sr, q.leader, q.region),
+				map[string]interface{}{"probe": "store-weight-api", "body": q.body})
+			return
+		}
+	}
+}
+
 func followerBackendProbe(R *res.Result) {
 	R.Count("probe:follower-backend")
 	c, err := pdcluster.Start(2, nil)
@@ -1599,6 +1649,7 @@ func followerBackendProbe(R *res.Result) {
 		R.Notes = append(R.Notes, "follower-backend probe skipped: no raft cluster on the leader")
 		return
 	}
+	storeWeightAPI(R, l)
 	const n = 30
 	want := map[uint64]bool{}
 	for i := 0; i < n; i++ {
